@@ -253,6 +253,12 @@ func (env *Env) ctor(t Ty, parsed bool) px.Type {
 		return types.NewIterableType(env.ctor(t.Ts[0], parsed))
 	case "itr":
 		return types.NewIteratorType(env.ctor(t.Ts[0], parsed))
+	case "rt":
+		var pat *types.RegexpType
+		if len(t.S) > 2 {
+			pat = types.NewRegexpType(t.S[2])
+		}
+		return types.NewRuntimeType(t.S[0], t.S[1], pat)
 	case "obj":
 		if len(t.Path) == 0 {
 			return types.DefaultObjectType()
